@@ -78,7 +78,7 @@ func zzC08DiffRender(objs1, objs2 []parser.K8sObject) ([]string, bool) {
 }
 
 func ZZ_C08_Diff() {
-	s1, s2 := 1+vf_Choose("r1.shape", 3), vf_Choose("r2.shape", 4)
+	s1, s2 := []int{1, 3}[vf_Choose("r1.shape", 2)], []int{0, 2, 3}[vf_Choose("r2.shape", 3)]
 	vf_Schedule(false)
 	o1, ok1 := zzC08DiffRender(zzC08DiffSide("r1", s1, false), zzC08DiffSide("r2", s2, false))
 	vf_Schedule(true)
